@@ -94,6 +94,22 @@ def handle : Handler := fun j => do
     | some d =>
       if !docSupported d then pure (Json.mkObj [("unsupported", true)])
       else pure (rJson (if (← getStr j "op") == "as" then validateAS d else validateOP d))
+  | "oidc_claims" =>
+    match toDoc (← j.getObjVal? "payload") with
+    | none => pure (Json.mkObj [("unsupported", true)])
+    | some d =>
+      if !payloadSupported d then pure (Json.mkObj [("unsupported", true)]) else
+      let mj ← j.getObjVal? "meta"
+      let allowed : List (String × List String) := match mj.getObjVal? "allowed" with
+        | .ok (.obj kvs) => kvs.toList.filterMap fun (k, v) => match v with
+          | .arr a => some (k, a.toList.filterMap fun x => x.getStr?.toOption)
+          | _ => none
+        | _ => []
+      let m : OidcMeta := { acrValues := (strList mj "acr_values_supported").getD [], allowed := allowed }
+      match validateOidcClaims m d with
+      | .ok stored => pure (Json.mkObj [("r", "ok"), ("stored", docJson stored)])
+      | .invalid c => pure (Json.mkObj [("r", "invalid"), ("claim", Json.str c)])
+      | .crash e => pure (Json.mkObj [("r", "crash"), ("exc", Json.str e)])
   | "reg" =>
     match regHandle j with
     | .ok r => pure r
